@@ -6,7 +6,8 @@
    output: nbatches :: file_end :: rms_end :: time_end
            :: enc_list worker  (per worker: status, events (9 ints each), pads (4 ints each))
            ++ enc_list batch   (closed-form write map per batch: first, last, glo, ghi, local lo)
-           ++ enc_list probe   (3 ints each) *)
+           ++ enc_list probe   (3 ints each)
+           ++ [1 if the sync column takes part in the whitening product else 0] *)
 From Coq Require Import ZArith List Bool.
 From IBL.lib Require Import PyInt RunLib.
 From IBL.C06 Require Import Model.
@@ -44,6 +45,7 @@ Definition run (inp : list Z) : list Z :=
       :: enc_list enc_wres (workers c)
       ++ enc_list (enc_batch c) (zrange (Z.to_nat (nbatches c)))
       ++ enc_list (enc_probe c) probes
+      ++ [enc_bool (whitened_column c ncv)]       (* is the first sync column multiplied by wrot? *)
   | _ => [-999]
   end.
 
